@@ -13,4 +13,3 @@ INVARIANT LawFilterAgree
 INVARIANT LawEmptyFilter
 INVARIANT LawWeaker
 INVARIANT LawStrStronger
-POSTCONDITION Visited
